@@ -2,7 +2,8 @@
 
 spec -> code: TLC enumerates (specs/frame/WindowsMC.tla) lanes of <= 7 rows over {0, 1, 2, NA} (every lane, plus
 every cyclic value pattern carrying one or two NaN runs) x the operations of six families - rolling(window,
-min_periods, center).{sum,min,max,count,mean}, cumsum/cumprod/cummin/cummax(skipna), shift(k), diff(k),
+min_periods, center).{sum,min,max,count,mean} with fixed windows, rolling("<w>D", min_periods) over a DatetimeIndex with
+gaps, cumsum/cumprod/cummin/cummax(skipna), shift(k), diff(k),
 ffill/bfill(limit), map_overlap(before, after) with a neighbour-identifying stencil - together with the rows the
 TLA+ reference semantics of specs/frame/Windows.tla demands on the UNPARTITIONED lane (exact rationals), and ALL
 partitionings of n rows into <= 4 consecutive partitions (empty ones included) with the divisions that describe
@@ -39,7 +40,8 @@ META = {
                  "proves the reference local and decomposable over every cut; replay into dask partition by partition + TLC "
                  "validation of recorded calls",
     "level_text": "Small-scope: lanes of <= 7 rows (quick 6) over {0,1,2,NA} - all of them and all cyclic patterns with one or two "
-                  "NaN runs - x rolling(window 1..4, min_periods None/0..window, center).{sum,min,max,count,mean}, "
+                  "NaN runs - x rolling(window 1..4, min_periods None/0..window, center).{sum,min,max,count,mean}, time-based "
+                  "rolling('1D'..'5D', min_periods None/0..2) over a DatetimeIndex with gaps of 1..3 days, "
                   "cumsum/cumprod/cummin/cummax(skipna), shift and diff(periods -3..3), ffill/bfill(limit None/1..3), "
                   "map_overlap(before, after in 0..3) with a stencil whose value spells out which neighbours it read, on a Series "
                   "and on a two-column frame (int and float columns); a seeded stratified sample of that universe is exported by "
@@ -51,18 +53,34 @@ META = {
                   "results (index, cells as rationals with tolerance 1e-9, dtype class of non-empty partitions). The universe is "
                   "sampled (stratified, seeded), not exhausted. Integer windows wider than a neighbouring partition, and "
                   "ffill/bfill without limit over an all-NaN partition, are documented limitations of dask (NotImplementedError / "
-                  "ValueError: skipped and counted). Time-based windows, var/std/median/apply, pct_change (absent in this "
-                  "version), groupby-rolling and unknown divisions are outside this check.",
+                  "ValueError: skipped and counted). Time-based windows only with closed='right' and distinct timestamps; "
+                  "var/std/median/apply, pct_change (absent in this version), groupby-rolling, time-based map_overlap and "
+                  "unknown divisions are outside this check.",
 }
 
 NA = 99
-FAMS = ["roll", "cum", "shift", "diff", "fill", "mapov"]
+FAMS = ["roll", "troll", "cum", "shift", "diff", "fill", "mapov"]
 INVARIANTS = ["ShapeOK", "Local", "OverlapDecomposes", "CumDecomposes", "FillCarries", "FillMirror", "DiffIsSubShift",
-              "ShiftMoves", "RollRelations", "StencilDecodes", "LayoutsTruthful"]
+              "ShiftMoves", "RollRelations", "TimeWindows", "StencilDecodes", "LayoutsTruthful"]
+CASE_KEYS = ("fam", "op", "a", "b", "c", "s", "t", "vk", "u", "tgt")
 NAN, OTHER = [0, 0], [1, 0]
 
 
 # ----------------------------------------------------------------------------- case -> pandas / dask
+def index_label(case, day):
+    """The index label that stands for integer label `day`: itself, or a day of 2020 for the time-based windows."""
+    import pandas as pd
+    if case["fam"] == "troll":
+        return pd.Timestamp("2020-01-01") + pd.Timedelta(days=int(day))
+    return int(day)
+
+
+def label_at(case, pos):
+    """Label of row position pos (0-based); pos = n stands for 'one past the last label'."""
+    t = case["t"]
+    return index_label(case, t[pos] if pos < len(t) else t[-1] + 1)
+
+
 def pandas_frame(case):
     import numpy as np
     import pandas as pd
@@ -72,13 +90,18 @@ def pandas_frame(case):
         v = np.array(s, dtype="i8")
     else:
         v = np.array([np.nan if c == NA else float(c) for c in s], dtype="f8")
-    return pd.DataFrame({"rid": np.arange(n, dtype="i8"), "v": v, "u": np.array(u, dtype="i8")},
-                        index=pd.Index(np.arange(n), dtype="i8"))
+    if case["fam"] == "troll":
+        index = pd.DatetimeIndex([index_label(case, d) for d in case["t"]])
+    else:
+        index = pd.Index(np.array(case["t"]), dtype="i8")
+    return pd.DataFrame({"rid": np.arange(n, dtype="i8"), "v": v, "u": np.array(u, dtype="i8")}, index=index)
 
 
 def dask_frame(case, lay, divs):
+    """divs are row POSITIONS (what WindowsMC!DivsOf exports): mapped to the labels of the case."""
     pdf = pandas_frame(case)
-    return parts_collection(split_rows(pdf, lay), tuple(divs), key=("C46", case["s"], case["u"], case["vk"], list(lay), list(divs)))
+    return parts_collection(split_rows(pdf, lay), tuple(label_at(case, p) for p in divs),
+                            key=("C46", case["fam"], case["s"], case["t"], case["u"], case["vk"], list(lay), list(divs)))
 
 
 def stencil(df, bf=0, af=0, base=8):
@@ -104,6 +127,8 @@ def apply_op(case, df, is_dask):
     x = df["v"] if case["tgt"] == "series" else df[["v", "u"]]
     if fam == "roll":
         return getattr(x.rolling(a, min_periods=None if b == NA else b, center=bool(c)), op)()
+    if fam == "troll":
+        return getattr(x.rolling("%dD" % a, min_periods=None if b == NA else b), op)()
     if fam == "cum":
         return getattr(x, op)(skipna=bool(a))
     if fam == "shift":
@@ -147,6 +172,10 @@ def kind_of(dtypes):
 
 
 def int_label(v):
+    import pandas as pd
+    if isinstance(v, pd.Timestamp):                       # time-based windows: day number since 2020-01-01
+        d = v - pd.Timestamp("2020-01-01")
+        return int(d.days) if d == pd.Timedelta(days=d.days) else -1
     try:
         if float(v) == int(v):
             return int(v)
@@ -255,6 +284,8 @@ def reach(case):
     fam, a, b, c = case["fam"], case["a"], case["b"], case["c"]
     if fam == "roll":
         return (a // 2, a - a // 2 - 1) if c else (a - 1, 0)
+    if fam == "troll":
+        return None                     # bounded in time, not in rows: dask looks back over as many partitions as needed
     if fam in ("shift", "diff"):
         return (max(0, a), max(0, -a))
     if fam == "fill":
@@ -333,6 +364,8 @@ def classify(case, lay, clauses, obs):
         feat = "plain"
     if fam == "roll":
         return "roll:%s:%s:%s" % ("center" if case["c"] else "trailing", tgt, feat)
+    if fam == "troll":
+        return "roll:time-based:%s:%s" % (tgt, feat)
     if fam in ("shift", "diff"):
         return "%s:%s:%s:%s" % (fam, "forward" if case["a"] > 0 else "backward" if case["a"] < 0 else "zero", tgt, feat)
     if fam == "fill":
@@ -393,7 +426,7 @@ def check_cases(ctx, items, on_violation=None, count=True):
 
 # ----------------------------------------------------------------------------- TLC enumeration
 def quotas(ctx, maxn, scale):
-    base = {"roll": 900, "cum": 500, "shift": 200, "diff": 200, "fill": 350, "mapov": 250}
+    base = {"roll": 800, "troll": 300, "cum": 500, "shift": 200, "diff": 200, "fill": 350, "mapov": 250}
     wn = {1: 0.02, 2: 0.04, 3: 0.08, 4: 0.16, 5: 0.3, 6: 0.4, 7: 0.45}
     if maxn >= 7:
         wn = {1: 0.01, 2: 0.03, 3: 0.06, 4: 0.12, 5: 0.2, 6: 0.28, 7: 0.3}
@@ -437,9 +470,17 @@ def random_case(rng):
         else:
             s.append(rng.randint(0, 3))
     s = s[:n]
-    fam = rng.choice(["roll", "roll", "cum", "cum", "shift", "diff", "fill", "fill", "mapov"])
+    fam = rng.choice(["roll", "roll", "troll", "cum", "cum", "shift", "diff", "fill", "fill", "mapov"])
     a = b = c = 0
-    if fam == "roll":
+    t = list(range(n))
+    if fam == "troll":
+        op = rng.choice(["sum", "min", "max", "count", "mean"])
+        a = rng.randint(1, 7)
+        b = rng.choice([NA, NA, 0, 1, 2, 3])
+        t = [0]
+        for _ in range(n - 1):
+            t.append(t[-1] + rng.randint(1, 4))
+    elif fam == "roll":
         op = rng.choice(["sum", "min", "max", "count", "mean"])
         a = rng.randint(1, 6)
         b = rng.choice([NA, NA] + list(range(0, a + 1)))
@@ -456,7 +497,7 @@ def random_case(rng):
     else:
         op = "stencil"
         a, b = rng.randint(0, 3), rng.randint(0, 2)
-    case = {"fam": fam, "op": op, "a": a, "b": b, "c": c, "s": s, "vk": "f" if (NA in s or rng.random() < 0.3) else "i",
+    case = {"fam": fam, "op": op, "a": a, "b": b, "c": c, "s": s, "t": t, "vk": "f" if (NA in s or rng.random() < 0.3) else "i",
             "u": [rng.randint(0, 3) for _ in range(n)], "tgt": rng.choice(["series", "frame"])}
     lay = None
     for _ in range(40):
@@ -498,7 +539,7 @@ def run(ctx):
     items = [(c["c"], c["e"], pick_layouts(c["c"], layouts, rng, k)) for c in cases]
     nev = check_cases(ctx, items)
     ctx.extra["spec_to_code_evaluations"] = nev
-    for fam in ("roll", "cum", "fill", "mapov"):
+    for fam in ("roll", "troll", "cum", "fill", "mapov"):
         ex = next((it for it in items if it[0]["fam"] == fam and len(it[0]["s"]) >= 5), None)
         if ex:
             ctx.sample({"case": ex[0], "expected_rows": ex[1]["v"], "partitionings": [L["lay"] for L in ex[2]]})
@@ -516,10 +557,10 @@ def run(ctx):
         part = recs[lo:lo + 6000]
         rej = validate_records(ctx, part)
         for r in part:
-            ctx.count(("rec", {k: r[k] for k in ("fam", "op", "a", "b", "c", "s", "vk", "u", "tgt", "lay")}), nontrivial(r, r["lay"]))
+            ctx.count(("rec", {k: r[k] for k in CASE_KEYS + ("lay",)}), nontrivial(r, r["lay"]))
         for rid, cl in rej.items():
             r = byid[rid]
-            case = {k: r[k] for k in ("fam", "op", "a", "b", "c", "s", "vk", "u", "tgt")}
+            case = {k: r[k] for k in CASE_KEYS}
             ctx.violation(classify(case, r["lay"], cl, r["obs"]),
                           "TLC rejects a recorded %s.%s call (%s, partitions %s)" % (r["fam"], r["op"], "+".join(cl), r["lay"]),
                           {"record": r, "clauses": cl})
@@ -542,7 +583,7 @@ def replay(ctx, obj):
     c = obj["case"]
     if "record" in c:
         r = c["record"]
-        case = {k: r[k] for k in ("fam", "op", "a", "b", "c", "s", "vk", "u", "tgt")}
+        case = {k: r[k] for k in CASE_KEYS}
         rec = _record((int(r["id"][1:]), (case, {"lay": r["lay"], "divs": r["divs"]})))
         if "skip" in rec:
             print("skipped:", rec["skip"])
@@ -613,10 +654,13 @@ def selftest(ctx):
          [ex], "overlap_chunk", mutate(legacy.overlap_chunk, "return out.iloc[before:-after]", "return out.iloc[before:(-after + 1) or None]")),
         ("FFill.before: limit - 1 rows shared instead of limit",
          [ex.FFill], "before", property(lambda self: 1 if self.limit is None else max(self.limit - 1, 0))),
+        ("_tail_timedelta: look-back measured from the LAST row of the partition instead of the first (wrong operand)",
+         [ex], "_tail_timedelta", mutate(ex._tail_timedelta, "prev.index > (current.index.min() - before)", "prev.index > (current.index.max() - before)")),
     ]
     preds = {4: lambda c: c["fam"] == "shift" and c["a"] > 0,
              5: lambda c: (c["fam"] in ("shift", "diff") and c["a"] < 0) or (c["fam"] == "mapov" and c["b"] > 0) or (c["fam"] == "roll" and c["c"] == 1 and c["a"] >= 3),
-             6: lambda c: c["fam"] == "fill" and c["op"] == "ffill" and c["a"] not in (NA,)}
+             6: lambda c: c["fam"] == "fill" and c["op"] == "ffill" and c["a"] not in (NA,),
+             7: lambda c: c["fam"] == "troll" and c["op"] in ("sum", "count", "max") and c["a"] >= 2}
     ok = True
     for i, m in enumerate(mutants):
         what, targets, attr, mut = m[:4]
